@@ -57,6 +57,11 @@ def batch(tier):
         # same profiles as meters 4 and 1: one model object may be re-used for them (fit called again on the same object)
         "hourly-13": meter("hourly", "hourly_default", 13, ghi=False, weekend_shift=0.3),
         "daily-legacy-14": meter("daily", "legacy", 14, noise=0.3),
+        # the seed is part of the settings: the same baselines as meters 4 and 13 under another seed, and coordinate descent
+        # with random selection (its draws must come from the seed, not from whatever the global generator holds)
+        "hourly-4-seed1234": meter("hourly", "hourly_seed_alt", 4, ghi=False),
+        "hourly-randomsel-15": meter("hourly", "hourly_random_sel", 15, ghi=False),
+        "hourly-13-randomsel-seed1234": meter("hourly", "hourly_random_sel_alt", 13, ghi=False, weekend_shift=0.3),
     }
     if tier == "thorough":
         ms["hourly-supplcat-25"] = meter("hourly", "hourly_supplemental_cat", 25, ghi=False)
